@@ -496,7 +496,7 @@ fn stress(seed: u64, threads: usize, per_thread: usize) -> SubOutcome {
 }
 
 pub fn run(ctx: &Ctx, rep: &mut Report) {
-    rep.rule = "controlled schedules: 2-4 threads build block encoders through the process-wide plan cache; every thread parks before each of the cache's two critical sections (lookup, insert; hook yield points 0 and 2) and the harness's scheduler releases exactly one thread per step. (a) exhaustive: all interleavings of the critical sections for shapes 2 threads x 2 requests (all 16 size assignments over a 2-letter alphabet), 3 x 1 (all 8), 3 x 2 (selected assignments), also with the cache pre-filled to capacity so that inserts evict; (b) generated: request lists over a small alphabet (collisions common) with generated schedules; (c) generated eviction histories: 60-90 distinct sizes pre-filled, then concurrent requests for already-evicted and fresh sizes. Invariants after every critical section: at most 64 plans, the eviction queue is a duplicate-free permutation of the key set, every plan's symbol count equals its key, lock not poisoned; at the end every encoder == the encoder built without the cache (with_encoding_plan(generate(k))) and emits the packets of the unplanned encoder. Non-trivial = schedule with a double miss on one size before either insert, or an insert that evicts; distinct by (requests, prefill, schedule).".into();
+    rep.rule = "controlled schedules: 2-4 threads build block encoders through the process-wide plan cache; every thread parks before each of the cache's two critical sections (lookup, insert; hook yield points 0 and 2) and the harness's scheduler releases exactly one thread per step. (a) exhaustive: all interleavings of the critical sections for shapes 2 threads x 2 requests (all 16 size assignments over a 2-letter alphabet), 3 x 1 (all 8), 3 x 2 (selected assignments), 4 x 1 (the assignments distinct up to renaming; thorough also 4 threads with one 2-request thread), also with the cache pre-filled to capacity so that inserts evict; (b) generated: request lists over a small alphabet (collisions common) with generated schedules; (c) generated eviction histories: 60-90 distinct sizes pre-filled, then concurrent requests for already-evicted and fresh sizes. Invariants after every critical section: at most 64 plans, the eviction queue is a duplicate-free permutation of the key set, every plan's symbol count equals its key, lock not poisoned; at the end every encoder == the encoder built without the cache (with_encoding_plan(generate(k))) and emits the packets of the unplanned encoder. Non-trivial = schedule with a double miss on one size before either insert, or an insert that evicts; distinct by (requests, prefill, schedule).".into();
     rep.assumptions.push("all shared state of the cache lives behind one Mutex and code between the critical sections touches thread-local data only, so interleavings at critical-section granularity cover all observable behaviours (std::sync::Mutex assumed correct)".into());
     rep.exhaustive = true;
     let started = Instant::now();
@@ -521,7 +521,14 @@ pub fn run(ctx: &Ctx, rep: &mut Report) {
     shapes.push((vec![vec![a, a], vec![20, a]], full.clone()));
     // 3 x 2
     shapes.push((vec![vec![a, b], vec![b, a], vec![a, a]], vec![]));
+    // 4 threads x 1 request: the assignments distinct up to renaming threads and sizes
+    shapes.push((vec![vec![a], vec![a], vec![a], vec![a]], vec![]));
+    shapes.push((vec![vec![a], vec![a], vec![b], vec![b]], vec![]));
     if ctx.tier == Tier::Thorough {
+        shapes.push((vec![vec![a], vec![a], vec![a], vec![b]], vec![]));
+        shapes.push((vec![vec![a], vec![a], vec![b], vec![20]], full.clone()));
+        shapes.push((vec![vec![a], vec![b], vec![21], vec![20]], full.clone()));
+        shapes.push((vec![vec![a, a], vec![a], vec![a], vec![b]], vec![]));
         shapes.push((vec![vec![a, a], vec![a, a], vec![a, a]], vec![]));
         shapes.push((vec![vec![a, b], vec![a, b], vec![b, a]], full.clone()));
         shapes.push((vec![vec![a, 20], vec![21, a], vec![b, 20]], full.clone()));
